@@ -289,6 +289,13 @@ def gen_argv_cases(tier, rng):
         if s and program_ok(s):
             yield "prog", [s]
             yield "prog", [s, [A, SP, BS]]
+    # argv[0] OUTSIDE program_ok (a quote in it, or a trailing backslash where it has to be quoted):
+    # the Windows parsers disagree with each other on such program names, so no round trip is
+    # demanded; the command line, its size and the bounds are still compared with the model
+    for s in strings_upto(4):
+        if s and not program_ok(s):
+            yield "prog-any", [s]
+            yield "prog-any", [s, [A, SP, BS]]
     short = list(strings_upto(2))
     progs = [s for s in short if s and program_ok(s)]
     for a0 in progs:
@@ -454,7 +461,7 @@ def main():
             if cmd is None:
                 continue
         expect = [list(x) for x in argv]
-        for name, dqs, oldp in VARIANTS:
+        for name, dqs, oldp in (VARIANTS if fam != "prog-any" else []):
             got = ms_split(cmd, dqs, oldp)
             if got != expect:
                 cls = classify(argv, got if got is not PGMPTR else [])
@@ -555,8 +562,9 @@ def main():
     n_s = 15000 if tier == "thorough" else 2000
     scases = []
     pool = [c for c in cases if c[0] in ("random", "argv<=3x2", "prog")]
+    in_domain = [c for c in cases if c[0] != "prog-any"]   # the round trip is demanded for program_ok argv[0] only
     for _ in range(n_s):
-        fam, argv = rng.choice(pool) if rng.random() < 0.8 else rng.choice(cases)
+        fam, argv = rng.choice(pool) if rng.random() < 0.8 else rng.choice(in_domain)
         _, beh, x, p = rng.choice(ecases)
         scases.append((argv, beh, x, p))
     sreqs = ["S %d %s %s" % (len(argv), " ".join(hx(a) for a in argv), env_request("", beh, x, p))
